@@ -98,6 +98,20 @@ pub struct WaveletMatrix {
 }
 
 impl WaveletMatrix {
+    /// Verification hook: assembles a wavelet matrix from its serialized parts.
+    #[cfg(simple_sds_verif)]
+    #[doc(hidden)]
+    pub fn verif_from_parts(len: usize, data: WMCore, first: IntVector) -> WaveletMatrix {
+        WaveletMatrix { len, data, first, }
+    }
+
+    /// Verification hook: forwards to the private `start_offsets`.
+    #[cfg(simple_sds_verif)]
+    #[doc(hidden)]
+    pub fn verif_start_offsets<Iter: Iterator<Item = u64>>(iter: Iter, len: usize, max_value: u64) -> IntVector {
+        Self::start_offsets(iter, len, max_value)
+    }
+
     // Returns the starting offset of the value after reordering.
     fn start(&self, value: <Self as Vector>::Item) -> usize {
         self.first.get(value as usize) as usize
